@@ -7,7 +7,7 @@ import (
 )
 
 // NumTactics is the number of shape constructors Tactic cycles through.
-const NumTactics = 14
+const NumTactics = 15
 
 // flipColors mirrors the position so that shapes are exercised for both colours.
 func maybeFlip(r *rand.Rand, p ref.Pos) ref.Pos {
@@ -378,6 +378,67 @@ func Tactic(r *rand.Rand, i int) (ref.Pos, bool) {
 			}
 		}
 		if p.InCheck(true) { // the pawn stood between slider and king a move ago, so White cannot be in check from that line now
+			return p, false
+		}
+	case 14: // a double step that blocks a slider's line to the mover's own king, beside an enemy pawn: taking it
+		// en passant uncovers the check again through the square the captured pawn leaves (Black to move here)
+		ef := r.Intn(8)
+		wf := ef + 1
+		if r.Intn(2) == 0 {
+			wf = ef - 1
+		}
+		if wf < 0 || wf > 7 {
+			return p, false
+		}
+		p.White = false
+		p.B[ref.Sq(ef, 6)] = -ref.Pawn
+		p.B[ref.Sq(wf, 4)] = ref.Pawn
+		land := ref.Sq(ef, 4) // where the double step lands
+		d := dirs[r.Intn(8)]
+		if d[1] == 0 && r.Intn(2) == 0 {
+			d = dirs[4+r.Intn(4)]
+		}
+		var kray, sray []int
+		for x, y := ef+d[0], 4+d[1]; x >= 0 && x < 8 && y >= 0 && y < 8; x, y = x+d[0], y+d[1] {
+			kray = append(kray, ref.Sq(x, y))
+		}
+		for x, y := ef-d[0], 4-d[1]; x >= 0 && x < 8 && y >= 0 && y < 8; x, y = x-d[0], y-d[1] {
+			sray = append(sray, ref.Sq(x, y))
+		}
+		if len(kray) == 0 || len(sray) == 0 {
+			return p, false
+		}
+		k := kray[r.Intn(len(kray))]
+		sl := sray[r.Intn(len(sray))]
+		if p.B[k] != 0 || p.B[sl] != 0 || k == ref.Sq(ef, 5) || sl == ref.Sq(ef, 5) {
+			return p, false
+		}
+		p.B[k] = -ref.King
+		slider := int8(ref.Queen)
+		if r.Intn(2) == 0 {
+			if d[0] == 0 || d[1] == 0 {
+				slider = ref.Rook
+			} else {
+				slider = ref.Bishop
+			}
+		}
+		p.B[sl] = slider
+		_ = land
+		if putFree(r, &p, ref.King) < 0 {
+			return p, false
+		}
+		// a few black men that could (wrongly) move instead of answering the check later
+		for j := 0; j < 1+r.Intn(3); j++ {
+			v := []int8{-ref.Pawn, -ref.Knight, -ref.Bishop, -ref.Rook}[r.Intn(4)]
+			sq := putFree(r, &p, v)
+			if sq >= 0 && v == -ref.Pawn && (ref.Rank(sq) == 0 || ref.Rank(sq) == 7) {
+				p.B[sq] = 0
+			}
+		}
+		if p.B[ref.Sq(ef, 5)] != 0 || p.B[ref.Sq(ef, 4)] != 0 {
+			return p, false
+		}
+		if !p.InCheck(false) { // the slider must give check now: Black answers by interposing the pawn (among others)
 			return p, false
 		}
 	case 12: // one piece pinned against two queens (or king and queen) along two different lines
